@@ -141,3 +141,14 @@ chk("C18", "static analysis: translation validation of macro expansions against 
     "rustc runs the proc macro while expanding the witness (the one place where a konst component executes, inside the "
     "compiler); no konst runtime function is called. The literal family is finite (68 quick / 400+ thorough).",
     cat="translation_validation")
+chk("C20", "static analysis: MIR scan/walk templates, decision tables, loop relations and length-term rules; witness expansion structure",
+    "CStr: the nul scan is a counted loop from 0 returning Ok{bytes[..i+1], i+1} at the first zero byte and Err when the "
+    "slice is exhausted; from_bytes_until_nul / from_bytes_with_nul are tables (Ok exactly when the first nul is the last "
+    "byte, payload = that CStr); to_bytes_with_nul is the walk to the first terminator returning i+1 bytes, to_bytes drops "
+    "exactly the last byte, to_str is the checked from_utf8. Concat/join: the length functions are the terms "
+    "sum(len(piece_i)) [+ sep.len()*(n-1), 0 if empty]; every fill loop copies piece[j] to out[cursor] with one shared "
+    "cursor advanced by one and bounds-checked stores; join writes first,(sep,piece)*; __ElemDispatch/__SepArg len agree with "
+    "the bytes they produce per kind; ArrayStr::as_str re-validates; in the macro expansions LEN and the bytes are computed "
+    "from the same ARGS constant.",
+    "Trusted: rustc MIR, char::len_utf8 (std) vs encode_utf8 arms (C07), the &CStr type invariant for the walk. Not decided: "
+    "the bytes of the resulting constants (that would need compile-time evaluation as an oracle).")
